@@ -209,6 +209,16 @@ func (o *oracle) checkStops() {
 				o.v("C17", "stranded-after-stop", "i%d.%d: %d submissions still waiting after the sequencer stopped", in.idx, in.inc, n)
 			}
 		}
+		if in.timeGuardHit && in.timeGuardInc == in.inc && w.instParked(in) == 0 {
+			in.timeGuardHit = false
+			if in.state == stRunning {
+				prop := "C17"
+				if w.prof.Prop == "C01" {
+					prop = "C01"
+				}
+				o.v(prop, "time-guard-not-fatal", "i%d.%d: a round was refused because time did not progress, but the sequencer keeps running (it must stop; only a restart re-reads the clock against the lock checkpoint)", in.idx, in.inc)
+			}
+		}
 		k := [2]int{in.idx, in.inc}
 		if o.casPending[k] {
 			delete(o.casPending, k)
